@@ -1058,6 +1058,19 @@ impl SolarDay {
       term = term.next(-1);
       day = term.get_julian_day().get_solar_day();
     }
+    // 节气在公历月内的位置会随世纪漂移，下一个节气已经开始时继续向后找
+    loop {
+      let next_term: SolarTerm = term.next(1);
+      if next_term.is_beyond_range() {
+        break;
+      }
+      let next_day: SolarDay = next_term.get_julian_day().get_solar_day();
+      if self.is_before(next_day) {
+        break;
+      }
+      term = next_term;
+      day = next_day;
+    }
     SolarTermDay::new(term, self.subtract(day) as usize)
   }
 
@@ -1558,6 +1571,17 @@ impl SolarTime {
     while self.is_before(term.get_julian_day().get_solar_time()) {
       term = term.next(-1);
     }
+    // 节气在公历月内的位置会随世纪漂移，下一个节气已经开始时继续向后找
+    loop {
+      let next_term: SolarTerm = term.next(1);
+      if next_term.is_beyond_range() {
+        break;
+      }
+      if self.is_before(next_term.get_julian_day().get_solar_time()) {
+        break;
+      }
+      term = next_term;
+    }
     term
   }
 
@@ -1752,6 +1776,11 @@ impl SolarTerm {
   /// ```
   pub fn get_cursory_julian_day(&self) -> f64 {
     self.cursory_julian_day
+  }
+
+  /// 节气时刻(四舍五入到秒)是否在10000年1月1日0点(儒略日5373484.5)及以后，超出了支持的公历范围
+  fn is_beyond_range(&self) -> bool {
+    self.get_julian_day().get_day() + 0.5 / 86400.0 >= 5373484.5
   }
 }
 
